@@ -103,7 +103,7 @@ def changed_drops_entry(ch):
     return sorted(set(probs))
 
 
-def r01_1(rep, mod):
+def r01_1(rep, mod, rule='R01.1'):
     from . import picklesem
     sites = memo_sites(mod)
     names = sorted({(q, t) for q, t, f in sites})
@@ -118,7 +118,7 @@ def r01_1(rep, mod):
     preds = filters_on_time_dependent_predicate(helper) if uses_helper else []
     preds += filters_on_time_dependent_predicate(init)
     if not preds:
-        rep.check('R01.1', 'declarations.Provides', True,
+        rep.check(rule, 'declarations.Provides', True,
                   'the memoized constructor does not depend on the class\'s '
                   'current declarations', construct='memo:InstanceDeclarations',
                   node=f)
@@ -151,7 +151,7 @@ def r01_1(rep, mod):
                    picklesem.tuple_elems(sts[0].val) == ['cls', '*interfaces'])
     keyok = not fp and bool(cap) and all(cap)
     ok = hit_validates or (dropped and subj and keyok)
-    rep.check('R01.1', 'declarations.Provides', ok,
+    rep.check(rule, 'declarations.Provides', ok,
               {'memo': 'InstanceDeclarations keyed by (cls, *interfaces)',
                'frozen_decision': [norm_src(p) for p in preds][:3],
                'hit_path_revalidates': hit_validates,
@@ -170,13 +170,13 @@ def r01_1(rep, mod):
                 or ps.facts.get('EXCEPT(AttributeError)') is True
                 for ps in normal(summaries(ic))) and any(
         bool(drops_super_cache(ps)) for ps in normal(summaries(ic)))
-    rep.check('R01.1', 'declarations._implementedBy_super',
+    rep.check(rule, 'declarations._implementedBy_super',
               drops and not filters_on_time_dependent_predicate(sup),
               '_super_cache holds specs built from live, unfiltered bases and is '
               'dropped by Implements.changed', construct='memo:_super_cache',
               node=sup)
     ib = find_def(mod, 'implementedBy')
-    rep.check('R01.1', 'declarations.implementedBy',
+    rep.check(rule, 'declarations.implementedBy',
               ('implementedBy', 'BuiltinImplementationSpecifications') in names,
               'BuiltinImplementationSpecifications memoizes the live class '
               'specification itself (recomputed through its own __bases__ stores)',
